@@ -748,6 +748,9 @@ def worker(job):
 
 
 def family_for(prop, tier):
+    if prop == 'C08':
+        from . import c08
+        return c08.family(tier)
     fam = bfamily.family(tier)
     if prop in ('C09', 'C10'):
         from . import bfamily3
@@ -880,4 +883,5 @@ def write_known(prop, bysig, tier):
 
 
 EXTRA = {}
-from . import checks_b2  # noqa: E402  (registers C09, C10, C16, C08)
+from . import checks_b2  # noqa: E402  (registers C09, C10, C16)
+from . import c08  # noqa: E402
